@@ -6,6 +6,7 @@ CONSTANTS
   Cap = 1
   LeakChoices = {TRUE}
   CapDecrChoices = {TRUE}
+  SatChoices = {FALSE}
   AtomicSetPhase = FALSE
   Proc = {"p1", "p2"}
   NoProc = "nobody"
